@@ -31,19 +31,45 @@ def outputNode (v : Str) : Node := .elem "output".toList [("value".toList, v)] [
 /-- a text chunk as the reader reports it: absent when empty -/
 def chunk (stock : Bool) (s : Str) : List Node := if s.isEmpty then [] else [.text stock s]
 
-def Cell.tailKids (refs : List (Str × Str)) : List (Str × Str) → Option (List Node)
+/-- the references of a cell resolved through `_var_repl_function`: `(value of the output, text after it)` -/
+def resolve (refs : List (Str × Str)) : List (Str × Str) → Option (List (Str × Str))
   | [] => some []
   | (n, t) :: rest =>
-    match varRepl refs false n, Cell.tailKids refs rest with
-    | some v, some ks => some (outputNode v :: chunk true (normEol t) ++ ks)
+    match varRepl refs false n, resolve refs rest with
+    | some v, some items => some ((v, t) :: items)
     | _, _ => none
 
-/-- the DOM children the mixed channel must produce: the text chunks (as data, stock text nodes)
-    interleaved with exactly one `output` per reference -/
-def Cell.kids (refs : List (Str × Str)) (c : Cell) : Option (List Node) :=
-  match Cell.tailKids refs c.tail with
-  | some ks => some (chunk true (normEol c.head) ++ ks)
-  | none => none
+/-- the string `insert_output_values` must hand to the re-parse: text escaped, references as markup -/
+def itemsMarkup : List (Str × Str) → Str
+  | [] => []
+  | (v, t) :: rest => outputMarkup v ++ (escText t ++ itemsMarkup rest)
+
+/-- the DOM children prescribed by a cell: text chunks (as data; line ends normalised by the re-parse)
+    interleaved with exactly one `output` per reference, nothing else -/
+def itemsKids (stock : Bool) : List (Str × Str) → List Node
+  | [] => []
+  | (v, t) :: rest => outputNode v :: (chunk stock (normEol t) ++ itemsKids stock rest)
+
+def cellKids (stock : Bool) (head : Str) (items : List (Str × Str)) : List Node :=
+  chunk stock (normEol head) ++ itemsKids stock items
+
+/-- `${` occurs in the string -/
+def hasDollarBrace : Str → Bool
+  | '$' :: '{' :: _ => true
+  | _ :: r => hasDollarBrace r
+  | [] => false
+
+/-- literal text of a cell: XML characters, no `${` -/
+def TextOk (t : Str) : Prop := hasDollarBrace t = false ∧ ∀ c ∈ t, isXmlChar c = true
+
+/-- a reference name as `BRACKETED_TAG_REGEX` delimits it and `escape_text_for_xml` leaves it alone
+    (every XML name qualifies), not carrying the `last-saved#` marker -/
+def NameOk (n : Str) : Prop :=
+  (∀ c ∈ n, c ≠ '}' ∧ c ≠ '\n' ∧ c ≠ '&' ∧ c ≠ '<' ∧ c ≠ '>') ∧ startsWith n lastSavedTag = false
+
+/-- an xpath as pyxform builds it from validated names: no markup characters, no TAB/LF/CR -/
+def ValOk (v : Str) : Prop :=
+  ∀ c ∈ v, attrCharOk c = true ∧ c ≠ '&' ∧ c ≠ '<' ∧ c ≠ '>' ∧ c ≠ '"'
 
 mutual
 /-- tags and attribute names, nothing else -/
